@@ -360,3 +360,52 @@ def _gen_trans_prefix():
 
 
 GEN = {"FlowGraph.__hoist": _small_graphs}
+
+
+# ---------------------------------------------------------------- graph construction, one builder (C10)
+# FlowGraph.__build_project_interval: the eager-input node of a projected, partitioned rank depends on a fiber of
+# EVERY tensor co-iterated at the outer level (its statement reads all of them), and the interval node sits between the
+# outer loop / the eager inputs and the inner loop. Which rank of a tensor maps to the loop rank is sympy work
+# (abstracted: the three assignments computing `tranks`, `trans`, `matches`); what is proved is that one edge per tensor
+# is added, from a fiber node of THAT tensor, and the three interval edges.
+OBJ_CLASSES["FlowGraph"]["iter_map"] = "Dict[str, List[str]]"
+
+
+def fiber_edge_of(fg, tname, root, eager):
+    """the level-1 fiber <tname>_<root>1 of tensor `tname` has an edge to the eager-input node"""
+    return (FiberNode(tname.lower() + "_" + root + "1"), eager) in fg.graph.g_edges
+
+
+CONTRACTS.update({
+    "Program.get_partitioning": dict(params=["self"], returns="PartitioningF", assumed=True, observer=True),
+    "PartitioningF.get_root_name": dict(params=["self", "rank"], returns="str", assumed=True, observer=True),
+    "PartitioningF.get_final_rank_id": dict(params=["self", "init_ranks", "rank"], returns="str", assumed=True, observer=True),
+    "FlowGraph.__build_project_interval": dict(
+        requires=["rank[:-1] + '1' in self.iter_map"],
+        modifies=["self.graph.g_edges[]"],
+        raises={"AssertionError": None, "ValueError": None},
+        local_kinds={"tranks": "List[Any]", "matches": "List[Any]", "trans": "Any", "g_fn": "List[str]"},
+        abstract_stmts={
+            "tranks = ": "sympy symbols of the tensor's ranks",
+            "trans = ": "CoordMath.get_cond_expr (sympy): the index expression relating the loop rank to this tensor",
+            "matches = ": "the tensor's rank that occurs in that expression (sympy atoms)",
+        },
+        ghost_entry="g_fn = []\n",
+        ghost_after={"fiber_name = tname.lower() + '_' + trank_root + '1'": "g_fn = g_fn + [trank_root]\n"},
+        ensures_env="exit",
+        ensures=[
+            ("interval_between_outer_loop_eager_inputs_and_inner_loop",
+             "(LoopNode(rank1), IntervalNode(rank0)) in self.graph.g_edges and "
+             "(eager_input_node, IntervalNode(rank0)) in self.graph.g_edges and "
+             "(IntervalNode(rank0), LoopNode(rank0)) in self.graph.g_edges"),
+            ("eager_inputs_of_the_outer_level", "eager_input_node == EagerInputNode(rank[:-1] + '1', self.iter_map[rank[:-1] + '1'])"),
+            ("a_fiber_of_every_co_iterated_tensor_feeds_the_eager_inputs",
+             "len(g_fn) == len(self.iter_map[rank1]) and "
+             "all(fiber_edge_of(self, self.iter_map[rank1][j], g_fn[j], eager_input_node) for j in range(len(self.iter_map[rank1])))"),
+            ("nothing_removed", "all(e in self.graph.g_edges for e in old(self.graph.g_edges))"),
+        ],
+        loops={0: dict(idx="kt", modifies=["self.graph.g_edges[]"], ghost_vars=["g_fn"],
+                       inv=[("so_far", "len(g_fn) == kt and all(fiber_edge_of(self, self.iter_map[rank1][j], g_fn[j], eager_input_node) for j in range(kt))"),
+                            ("monotone", "all(e in self.graph.g_edges for e in old(self.graph.g_edges))")])},
+    ),
+})
